@@ -1419,10 +1419,18 @@ fn client_body(h: &CHist, rec: &mut Rec) -> CaseResult {
 pub fn check() -> Option<Check> {
     let histories = prop("histories", 200_000, 4_000_000, hist, body);
     let client_clear = prop("client_clear", 50_000, 1_000_000, chist, client_body);
+    let recursor_expiry = crate::core::prop_hang(
+        "recursor_expiry",
+        30_000,
+        600_000,
+        std::time::Duration::from_secs(60),
+        |_t| crate::checks::c19::expiry_case(),
+        crate::checks::c19::expiry_body,
+    );
     Some(Check {
         id: "C15",
         level: "exploration",
-        rule: "histories of <=30 (thorough 40) insert/get operations over 3 queries (2 names x 2 types) with non-decreasing nanosecond times (steps 0, sub-second, 1-5 s, large jumps, and jumps to the model's expiry instant +-{0,1ns,0.5s,1s}); results: positive messages with 0-6 records of the queried type / CNAME / other types spread over answer, authority and additional with independent TTLs (0..11 mostly, 3600+-5, 86400+-5, >1 day, 2^31-1), NoRecordsFound built directly (with/without negative_ttl, SOA, authorities, NS+glue) or through DnsError::from_response (SOA ttl/minimum), transient errors (timeout, io, SERVFAIL, REFUSED, busy, no connections, message); TtlConfig built through its serde form with default and 0-3 per-type tables, each bound unset / 0 / 1-9 / 30-3600 / >= 1 day, min<=max enforced, explicit min=max class. Non-trivial = distinct history AND (re-insert of a key whose entry is live, OR a get within 1 s of the model's expiry instant, OR a record whose own type's bounds clamp differently from the query type's bounds); client_clear: <=30 lookups/clears through CachingClient (preserve_intermediates on/off) over a scripted upstream answering with direct answers, alias answers (1-2 CNAMEs + target records in one response), negatives, SERVFAIL, timeouts",
+        rule: "histories of <=30 (thorough 40) insert/get operations over 3 queries (2 names x 2 types) with non-decreasing nanosecond times (steps 0, sub-second, 1-5 s, large jumps, and jumps to the model's expiry instant +-{0,1ns,0.5s,1s}); results: positive messages with 0-6 records of the queried type / CNAME / other types spread over answer, authority and additional with independent TTLs (0..11 mostly, 3600+-5, 86400+-5, >1 day, 2^31-1), NoRecordsFound built directly (with/without negative_ttl, SOA, authorities, NS+glue) or through DnsError::from_response (SOA ttl/minimum), transient errors (timeout, io, SERVFAIL, REFUSED, busy, no connections, message); TtlConfig built through its serde form with default and 0-3 per-type tables, each bound unset / 0 / 1-9 / 30-3600 / >= 1 day, min<=max enforced, explicit min=max class. Non-trivial = distinct history AND (re-insert of a key whose entry is live, OR a get within 1 s of the model's expiry instant, OR a record whose own type's bounds clamp differently from the query type's bounds); client_clear: <=30 lookups/clears through CachingClient (preserve_intermediates on/off) over a scripted upstream answering with direct answers, alias answers (1-2 CNAMEs + target records in one response), negatives, SERVFAIL, timeouts recursor_expiry: the same clauses through the recursor (recursor/handle.rs shares the response cache): one query is resolved on an honest simulated internet (all zone data TTL 3600, SOA MINIMUM 300), virtual time advances by 0 s .. 3 h (clustered around 300 s and 3600 s) and the query is resolved again; whatever the second resolution returns without a single upstream datagram came from a cache and was stored no later than the end of the first resolution: reported TTLs must be <= 3600 minus the whole seconds in between, nothing may be returned after 3600 s, no negative answer after 300 s, and no TTL is ever above the zone's. Non-trivial = the first resolution asked upstream.",
         assumptions: vec![
             "virtual clock (interposed clock_gettime) equals the Instant passed to insert/get, as for the real callers which pass Instant::now()",
             "configurations with min > max (after defaults 0 s / 1 day) are outside the domain: the statement's clamp is undefined there (the implementation panics in clamp)",
@@ -1432,6 +1440,6 @@ pub fn check() -> Option<Check> {
             "TTL values inside a negative answer may be reported from the unclamped or the clamped stored value (statement silent)",
             "ResponseCache::clear is pub(crate); clear is not reachable on a cache with a custom TtlConfig from outside the crate",
         ],
-        subs: vec![histories, client_clear],
+        subs: vec![histories, client_clear, recursor_expiry],
     })
 }
